@@ -1,2 +1,123 @@
-"""C09 - see codec_props.py"""
-from .codec_props import run_prop as run
+"""C09 - every valid BER form of a value decodes to that value (codec_props.plan_c09), plus the component maps the
+SEQUENCE/SET decoder relies on (spec/NamedTypes.tla replayed into pyasn1.type.namedtype)."""
+import json
+import os
+
+from pyasn1 import error
+from pyasn1.type import namedtype, tag, univ
+
+from .. import core, tlc, tlaval
+from . import codec_props
+
+
+def ttag(n):
+    return tag.Tag(tag.tagClassContext, tag.tagFormatSimple, n)
+
+
+def replay_list(cs):
+    """one component list of the generator -> divergences between pyasn1.type.namedtype and the model's maps"""
+    out = []
+    comps = []
+    for i, c in enumerate(cs):
+        t = univ.Integer().subtype(implicitTag=ttag(c['tag']))
+        name = 'f%d' % i
+        comps.append(namedtype.NamedType(name, t) if c['mode'] == 'req' else
+                     namedtype.OptionalNamedType(name, t) if c['mode'] == 'opt' else namedtype.DefaultedNamedType(name, t.clone(1)))
+    nts = namedtype.NamedTypes(*comps)
+    n = len(cs)
+
+    def window(i):        # the model's Window, recomputed here only to phrase messages; the verdicts come from `want`
+        w = [i]
+        while cs[w[-1]]['mode'] != 'req' and w[-1] + 1 < n:
+            w.append(w[-1] + 1)
+        return w
+    return nts, out
+
+
+def check_state(s):
+    cs, want = s['cs'], s['want']
+    nts, out = replay_list(cs)
+    n = len(cs)
+    tagset = lambda t: univ.Integer().subtype(implicitTag=ttag(t)).tagSet
+    try:
+        if sorted(nts.requiredComponents) != [i - 1 for i in want['required']]:
+            out.append('requiredComponents %s, model %s' % (sorted(nts.requiredComponents), want['required']))
+        if bool(nts.hasOptionalOrDefault) != want['skippable']:
+            out.append('hasOptionalOrDefault %s, model %s' % (nts.hasOptionalOrDefault, want['skippable']))
+        for i in range(n):
+            got = sorted(ts[-1].tagId for ts in nts.getTagMapNearPosition(i).presentTypes)
+            if got != sorted(want['near'][i]):
+                out.append('getTagMapNearPosition(%d) tags %s, model %s' % (i, got, sorted(want['near'][i])))
+            for t in range(1, want['ntags'] + 1):
+                exp = want['nearpos'][i][t - 1]            # 0 = tag not in the window
+                try:
+                    p = nts.getPositionNearType(tagset(t), i)
+                    if exp == 0 or p != exp - 1:
+                        out.append('getPositionNearType(tag %d, %d) = %s, model %s' % (t, i, p, exp - 1 if exp else 'not in window'))
+                except error.PyAsn1Error:
+                    if exp != 0:
+                        out.append('getPositionNearType(tag %d, %d) raised, model %d' % (t, i, exp - 1))
+        for c_i, c in enumerate(cs):
+            if nts.getPositionByType(tagset(c['tag'])) != c_i:
+                out.append('getPositionByType(tag %d) wrong' % c['tag'])
+        if sorted(ts[-1].tagId for ts in nts.tagMapUnique.presentTypes) != sorted(c['tag'] for c in cs):
+            out.append('tagMapUnique keys differ')
+        if nts.minTagSet[-1].tagId != want['mintag']:
+            out.append('minTagSet %s, model %s' % (nts.minTagSet, want['mintag']))
+    except Exception as e:   # noqa
+        out.append('crash %s: %s' % (type(e).__name__, e))
+    return out
+
+
+def namedtypes_part(ctx, sc):
+    maxlen = 4 if ctx.quick else 5
+    ntags = 4 if ctx.quick else 5
+    with open(sc.file('MC_nt.tla'), 'w') as f:
+        f.write('''---- MODULE MC_nt ----
+EXTENDS NamedTypes
+VARIABLE want
+MCInit == Init /\\ want = [required |-> Required(cs), skippable |-> HasSkippable(cs), ntags |-> NTags, mintag |-> MinTag(cs),
+                         near |-> [i \\in 1..Len(cs) |-> NearTags(cs, i)],
+                         nearpos |-> [i \\in 1..Len(cs) |-> [t \\in 1..NTags |-> IF t \\in NearTags(cs, i) THEN NearPos(cs, t, i) ELSE 0]]]
+MCNext == UNCHANGED <<cs, want>>
+====
+''')
+    with open(sc.file('MC_nt.cfg'), 'w') as f:
+        f.write('INIT MCInit\nNEXT MCNext\nCONSTANT MaxLen = %d\nCONSTANT NTags = %d\nINVARIANT WindowStartsAtI\n'
+                'INVARIANT WindowIsAnInterval\nINVARIANT WindowEndsAtFirstMandatory\nCHECK_DEADLOCK FALSE\n' % (maxlen, ntags))
+    dump = sc.file('nt.dump')
+    r = tlc.run(sc.file('MC_nt.tla'), sc.file('MC_nt.cfg'), sc, dump=dump, timeout=1800)
+    ctx.add_tlc('NamedTypes generator (component lists up to length %d over %d tags)' % (maxlen, ntags), r)
+    if not r.ok:
+        raise core.Machinery('NamedTypes model run failed: %s %s\n%s' % (r.violated, r.errors[:2], r.out[-1500:]))
+    states = list(tlaval.parse_dump(open(dump).read()))
+    os.remove(dump)
+    for s in states:
+        s['want']['required'] = sorted(s['want']['required'])
+        s['want']['near'] = [sorted(x) for x in s['want']['near']]
+    res = core.pmap(check_state, states, chunksize=256)
+    bad = 0
+    for s, divs in zip(states, res):
+        ctx.evaluations += 1
+        ctx.keys.add(('namedtypes', tuple((c['mode'], c['tag']) for c in s['cs'])))
+        if divs:
+            bad += 1
+            ctx.report('component maps of %s: %s' % ([(c['mode'], c['tag']) for c in s['cs']], '; '.join(divs[:3])),
+                       {'clause': 'ComponentMaps', 'part': 'namedtypes', 'n': len(s['cs'])},
+                       {'prop': 'C09', 'kind': 'namedtypes', 'comps': s['cs'], 'model': s['want'], 'divergences': divs})
+    ctx.traces += len(states) - bad
+    flipped = json.loads(json.dumps(states[-1]))
+    flipped['want']['near'][0] = []
+    if not check_state(flipped):
+        raise core.Machinery('namedtypes replay self-test failed')
+    ctx.extra['namedtypes'] = '%d component lists replayed into pyasn1.type.namedtype (self-test: an altered model window is noticed)' % len(states)
+    ctx.sample({'component list': states[len(states) // 2]['cs'], 'model maps': states[len(states) // 2]['want']})
+
+
+def run(ctx):
+    codec_props.run_prop(ctx)
+    with tlc.Scratch('c09nt') as sc:
+        namedtypes_part(ctx, sc)
+    ctx.rule += ('; plus every list of up to 4 (quick) / 5 (thorough) components with modes {mandatory, OPTIONAL, DEFAULT} and '
+                 'distinct tags generated by spec/NamedTypes.tla, replayed into NamedTypes.getTagMapNearPosition / '
+                 'getPositionNearType / requiredComponents / tagMapUnique / minTagSet')
